@@ -3,6 +3,7 @@
    end of a value leaves its tree and the memory alone, fields that start after the source are shifted. *)
 From SF Require Import Base.Prelude Gen.Generated Unsized.Types Unsized.Parse Unsized.Machine Unsized.Ops.
 From SF Require Import Unsized.Proofs.EncodeParse Unsized.Proofs.Mem Unsized.Proofs.Notify Unsized.Proofs.Flat Unsized.Proofs.Layout Unsized.Proofs.Table Unsized.Proofs.Path.
+From SF Require Import Unsized.Proofs.EnumFacts.
 
 Arguments Z.add : simpl never.
 Arguments Z.sub : simpl never.
@@ -115,7 +116,14 @@ Proof.
       cbn [Lay_fields] in HL. destruct HL as [HLq HLr]. cbn [after_fields].
       pose proof (zlen_nonneg (encode t v)).
       rewrite (Ht v b q src Hp1 Hv HLq Hlt). apply (IHts vs0 ps _ Hp2 Hvs HLr). lia.
-  - cbn in Hpl. discriminate.
+  - destruct v as [| | | |d pv]; try (cbn in Hwf; discriminate).
+    destruct p as [| | | | |st d' q]; try (cbn [Lay] in HL; contradiction).
+    apply Lay_enum in HL. destruct HL as (-> & -> & vt' & Hf' & HLq).
+    destruct (wf_enum_inv _ _ _ _ Hwf) as (Hd & vt & Hf & Hp). rewrite Hf in Hf'. injection Hf' as <-.
+    pose proof (plain_enum_find _ _ _ _ Hpl Hf) as Hplv.
+    enum_ih IH Hf IHv.
+    rewrite after_enum_find, Hf. apply andb_true_iff. split; [apply Z.ltb_lt; lia|].
+    apply (IHv pv (b + Z.of_nat rw) q src Hplv Hp HLq). lia.
 Qed.
 
 Lemma Lay_fields_after ts vs ps b src :
@@ -160,7 +168,14 @@ Proof.
       split; [apply Ht; assumption|].
       replace (b + c + zlen (encode t v)) with (b + zlen (encode t v) + c) by lia.
       apply IHts; assumption.
-  - cbn in Hpl. discriminate.
+  - destruct v as [| | | |d pv]; try (cbn in Hwf; discriminate).
+    destruct p as [| | | | |st d' q]; try (cbn [Lay] in HL; contradiction).
+    apply Lay_enum in HL. destruct HL as (-> & -> & vt' & Hf' & HLq).
+    destruct (wf_enum_inv _ _ _ _ Hwf) as (Hd & vt & Hf & Hp). rewrite Hf in Hf'. injection Hf' as <-.
+    pose proof (plain_enum_find _ _ _ _ Hpl Hf) as Hplv.
+    enum_ih IH Hf IHv.
+    cbn [shift]. apply Lay_enum. split; [reflexivity|]. split; [reflexivity|]. exists vt. split; [exact Hf|].
+    replace (b + c + Z.of_nat rw) with (b + Z.of_nat rw + c) by lia. apply IHv; assumption.
 Qed.
 
 Lemma Lay_fields_shift ts vs ps b c : plain (TStruct ts) = true -> wf (TStruct ts) (VStruct vs) = true ->
@@ -237,7 +252,18 @@ Proof.
     change (encode (TStruct ts) (VStruct vs0)) with (encs ts vs0) in *.
     rewrite (notify_fields_past_gen ts IH vs0 ps pre post src c Hpl (ty_ok_false_fields _ Hok) Hwf HL Hle).
     reflexivity.
-  - cbn in Hpl. discriminate.
+  - destruct v as [| | | |d pv]; try (cbn in Hwf; discriminate).
+    destruct p as [| | | | |st d' q]; try (cbn [Lay] in HL; contradiction).
+    apply Lay_enum in HL. destruct HL as (-> & -> & vt' & Hf' & HLq).
+    destruct (wf_enum_inv _ _ _ _ Hwf) as (Hd & vt & Hf & Hp). rewrite Hf in Hf'. injection Hf' as <-.
+    pose proof (plain_enum_find _ _ _ _ Hpl Hf) as Hplv.
+    enum_ih IH Hf IHv.
+    pose proof (ty_ok_enum_variant _ _ _ _ _ Hok Hf) as Hokv.
+    rewrite (zlen_encode_enum _ _ _ _ _ Hf) in Hle. pose proof (zlen_nonneg (encode vt pv)).
+    rewrite notify_enum, Hf, (encode_enum_some _ _ _ _ _ Hf), <- app_assoc.
+    specialize (IHv false pv q (pre ++ le_bytes rw d) post src c Hplv Hokv eq_refl Hp).
+    rewrite zlen_app, zlen_le_bytes, <- app_assoc in IHv. rewrite (IHv HLq) by lia. cbn [obind].
+    destruct (src <? zlen pre) eqn:E; [zb; lia|reflexivity].
 Qed.
 
 Lemma notify_past : forall t last v p pre post src c,
